@@ -29,6 +29,8 @@ def collect_atoms(term, acc):
     if not isinstance(term, tuple) or not term:
         raise Inconclusive("non-boolean term in comparison: %r" % (term,))
     k = term[0]
+    if k == "oob":
+        raise Inconclusive("PIECEWISE: an element outside its array is compared on a feasible path (%s)" % term[1])
     if k == "cmp":
         acc.append(term)
     elif k in ("not",):
